@@ -84,6 +84,15 @@ type Task struct {
 // Done reports whether the task has finished.
 func (t *Task) Done() bool { return t.done }
 
+// BlockedAt returns the site at which the task is parked waiting for a condition ("" when it is
+// runnable, running or finished).
+func (t *Task) BlockedAt() string {
+	if t.done || t.pred == nil {
+		return ""
+	}
+	return t.site
+}
+
 type timer struct {
 	at   time.Duration
 	seq  uint64
@@ -254,6 +263,9 @@ func (s *Sim) newTask(name string, node int, fn func()) *Task {
 		<-t.wake
 		t.goid = goidSlow()
 		t.started = true
+		// a memory fault in a task (a read of pages the code under test has made inaccessible) is a
+		// crash of the process under test: it is reported as such instead of killing the worker
+		debug.SetPanicOnFault(true)
 		defer s.taskEnd(t)
 		if t.aborted {
 			return
